@@ -160,13 +160,24 @@ Lemma asm_volume h buf kids st : asm (NVol h buf kids) st =
     match set_polarity (fst st) (fv_polarity (v_attrs h)) with
     | None => Err E_POLARITY
     | Some pol0 =>
-      do ks <- asm_elems kids (pol0, snd st); let '(kids', st1) := ks in
+      do ks <- asm_elems kids (pol0, false); let '(kids', st1) := ks in
       let '(pol, ffs3) := st1 in
       do hb <- asm_vol pol ffs3 h buf kids';
       let '(h', nb) := hb in
-      Ok (NVol h' nb kids', (pol, match kids' with [] => ffs3 | _ => false end))
+      Ok (NVol h' nb kids', (pol, snd st))
     end.
-Proof. reflexivity. Qed.
+Proof.
+  change (asm (NVol h buf kids) st) with
+    (match set_polarity (fst st) (fv_polarity (v_attrs h)) with
+     | None => Err E_POLARITY
+     | Some pol0 =>
+       do ks <- asm_elems kids (pol0, false); let '(kids', st1) := ks in
+       do r <- vol_asm h buf kids' st1; let '(n', st2) := r in Ok (n', (fst st2, snd st))
+     end).
+  destruct (set_polarity (fst st) (fv_polarity (v_attrs h))) as [pol0|]; [|reflexivity].
+  destruct (asm_elems kids (pol0, false)) as [[kids' [pol ffs3]]| | |]; cbn [bind]; try reflexivity.
+  unfold vol_asm. destruct (asm_vol pol ffs3 h buf kids') as [[h' nb]| | |]; reflexivity.
+Qed.
 
 Lemma asm_elems_cons x r st : asm_elems (x :: r) st =
   do xs <- asm x st; let '(x', st1) := xs in
@@ -413,8 +424,8 @@ Proof.
     rewrite !asm_volume.
     pose proof Hh as (Hg & Hl & Ha & Hhl & Hb & Hd & Hr). rewrite <- Ha.
     destruct (set_polarity (fst st) (fv_polarity (v_attrs h1))) as [pol0|]; [|cbn; reflexivity].
-    pose proof (asm_elems_congr k1 IH k2 Hk (pol0, snd st)) as HK.
-    destruct (asm_elems k1 (pol0, snd st)) as [[k1' s1]| | |] eqn:E1, (asm_elems k2 (pol0, snd st)) as [[k2' s2]| | |] eqn:E2;
+    pose proof (asm_elems_congr k1 IH k2 Hk (pol0, false)) as HK.
+    destruct (asm_elems k1 (pol0, false)) as [[k1' s1]| | |] eqn:E1, (asm_elems k2 (pol0, false)) as [[k2' s2]| | |] eqn:E2;
       cbn in HK; try contradiction; try (cbn; auto; fail).
     destruct HK as [HK Hs]; cbn [fst snd] in *; subst s2. cbn [bind].
     destruct s1 as [pol ffs3].
@@ -426,9 +437,7 @@ Proof.
       * intros E. apply Hbuf. apply Hnil; auto.
       * intros E. apply Hne. intro E'. apply E. apply Hnil; auto.
     + intros [h1' nb1] [h2' nb2] [Hv' Hnb]; cbn [fst snd] in *; subst nb2.
-      assert (Hm : match k1' with [] => ffs3 | _ => false end = match k2' with [] => ffs3 | _ => false end).
-      { inversion HK; reflexivity. }
-      rewrite Hm. cbn. split; [|reflexivity]. split; [|reflexivity].
+      cbn. split; [|reflexivity]. split; [|reflexivity].
       constructor; auto. apply Forall2_orel_rel; auto.
 Qed.
 
@@ -1114,3 +1123,597 @@ Theorem asm_bios_project elems len st : wf_treeb_list elems = true ->
 Proof. intros W. apply asm_bios_congr. apply project_list_rel. exact W. Qed.
 
 End Final.
+
+
+(* ---------- field edits ---------- *)
+
+Lemma zskipn_app_cons {A} (a : list A) x r n : zlen a = n -> zskipn (n + 1) (a ++ x :: r) = r.
+Proof.
+  intros H. unfold zskipn, zlen in *. replace (Z.to_nat (n + 1)) with (length (a ++ [x])).
+  - replace (a ++ x :: r) with ((a ++ [x]) ++ r) by (rewrite <- app_assoc; reflexivity).
+    apply skipn_all_app || (rewrite skipn_app, skipn_all, Nat.sub_diag; reflexivity).
+  - rewrite app_length. cbn. lia.
+Qed.
+
+(* the file GUID: exactly the 16 GUID bytes and the header checksum byte change *)
+Theorem edit_guid_bytes h g' ext attr data :
+  zlen (f_guid h) = 16 -> zlen g' = 16 ->
+  let r1 := checksum_and_assemble h ext attr data in
+  let r2 := checksum_and_assemble (with_guid h g') ext attr data in
+  snd r2 = g' ++ f_ckh (fst r2) :: zskipn 17 (snd r1) /\
+  snd r1 = f_guid h ++ f_ckh (fst r1) :: zskipn 17 (snd r1) /\
+  fst r2 = with_guid (mkFile (f_guid h) (f_ckh (fst r2)) (f_ckf (fst r1)) (f_type (fst r1)) (f_attr (fst r1))
+                             (f_size3 (fst r1)) (f_state (fst r1)) (f_ext (fst r1)) (f_dataoff (fst r1))
+                             (f_nvar (fst r1))) g'.
+Proof.
+  intros Hg Hg'. unfold checksum_and_assemble, with_guid. cbn [fst snd f_guid f_ckh f_ckf f_type f_attr f_size3 f_state f_ext f_dataoff f_nvar].
+  unfold file_header_bytes.
+  repeat split.
+  - rewrite <- !app_assoc. cbn [app]. f_equal. f_equal. symmetry. change 17 with (16 + 1). apply (zskipn_app_cons (f_guid h)). assumption.
+  - rewrite <- !app_assoc. cbn [app]. f_equal. f_equal. symmetry. change 17 with (16 + 1). apply (zskipn_app_cons (f_guid h)). assumption.
+Qed.
+
+Lemma ck_valid A s ckf : (((s - A) mod 256 + (A + ckf)) mod 256 - ckf - s) mod 256 = 0.
+Proof.
+  replace (((s - A) mod 256 + (A + ckf)) mod 256 - ckf - s)
+    with (((s - A) mod 256 + (A + ckf)) mod 256 - (ckf + s)) by ring.
+  rewrite Zminus_mod_idemp_l.
+  replace ((s - A) mod 256 + (A + ckf) - (ckf + s)) with ((s - A) mod 256 - (s - A)) by ring.
+  rewrite Zminus_mod_idemp_l, Z.sub_diag. reflexivity.
+Qed.
+
+(* the recomputed header checksum makes the header sum (without the file checksum and the state byte) zero *)
+Theorem header_checksum_valid h ext attr data :
+  zlen (f_guid h) = 16 ->
+  let r := checksum_and_assemble h ext attr data in
+  (sum8 (zfirstn (file_hlen attr) (snd r)) - f_ckf (fst r) - f_state (fst r)) mod 256 = 0.
+Proof.
+  intros Hl. unfold checksum_and_assemble. cbn [fst snd f_ckf f_state].
+  set (ckf' := if attr_checksum attr then (0 - sum8 data) mod 256 else 170).
+  set (hs := if attr_large attr then 32 else 24).
+  unfold file_hlen. fold hs.
+  set (rest := [f_type h; attr] ++ le_enc 3 (write3 ext) ++ [f_state h] ++ le_enc 8 ext).
+  (* the sum that defined the new header checksum *)
+  assert (Hsum : forall ckh ckf large,
+    sum_list (zfirstn hs (file_header_bytes (f_guid h) ckh ckf (f_type h) attr (write3 ext) (f_state h) ext large
+                           ++ (if large then [] else le_enc 8 ext) ++ data)) =
+    sum_list (f_guid h) + ckh + ckf + sum_list (zfirstn (hs - 18) (rest ++ data))).
+  { intros ckh ckf large. unfold file_header_bytes, zfirstn.
+    replace ((f_guid h ++ [ckh; ckf; f_type h; attr] ++ le_enc 3 (write3 ext) ++ [f_state h] ++
+              (if large then le_enc 8 ext else [])) ++ (if large then [] else le_enc 8 ext) ++ data)
+      with ((f_guid h ++ [ckh; ckf]) ++ (rest ++ data)).
+    2:{ unfold rest. destruct large; rewrite <- !app_assoc; cbn [app]; rewrite ?app_nil_r; reflexivity. }
+    assert (Hlen : length (f_guid h ++ [ckh; ckf]) = 18%nat).
+    { rewrite app_length. unfold zlen in Hl. cbn [length]. lia. }
+    rewrite firstn_app_ge by (rewrite Hlen; subst hs; destruct (attr_large attr); lia).
+    rewrite Hlen. replace (Z.to_nat hs - 18)%nat with (Z.to_nat (hs - 18)) by lia.
+    rewrite !sum_list_app. change (sum_list [ckh; ckf]) with (ckh + (ckf + 0)). ring. }
+  (* zfirstn hs of the 32-byte header = zfirstn hs of header ++ anything *)
+  assert (Hpre : forall ckh ckf X,
+    zfirstn hs (file_header_bytes (f_guid h) ckh ckf (f_type h) attr (write3 ext) (f_state h) ext true) =
+    zfirstn hs (file_header_bytes (f_guid h) ckh ckf (f_type h) attr (write3 ext) (f_state h) ext true ++ X)).
+  { intros. unfold zfirstn. rewrite firstn_app.
+    assert (L : length (file_header_bytes (f_guid h) ckh ckf (f_type h) attr (write3 ext) (f_state h) ext true) = 32%nat).
+    { unfold file_header_bytes. rewrite !app_length, !le_enc_length. unfold zlen in Hl. cbn [length]. lia. }
+    rewrite L. replace (Z.to_nat hs - 32)%nat with 0%nat by (subst hs; destruct (attr_large attr); lia).
+    cbn [firstn]. rewrite app_nil_r. reflexivity. }
+  set (ckh' := (f_ckh h - (sum8 (zfirstn hs (file_header_bytes (f_guid h) (f_ckh h) (f_ckf h) (f_type h) attr
+                  (write3 ext) (f_state h) ext true)) - f_ckf h - f_state h) mod 256) mod 256).
+  assert (Hck : ckh' = (f_state h - (sum_list (f_guid h) + sum_list (zfirstn (hs - 18) (rest ++ data)))) mod 256).
+  { unfold ckh', sum8. rewrite (Hpre _ _ data).
+    pose proof (Hsum (f_ckh h) (f_ckf h) true) as E. cbn [app] in E. rewrite E.
+    set (A := sum_list (f_guid h) + sum_list (zfirstn (hs - 18) (rest ++ data))).
+    replace (sum_list (f_guid h) + f_ckh h + f_ckf h + sum_list (zfirstn (hs - 18) (rest ++ data)))
+      with (A + f_ckh h + f_ckf h) by (unfold A; ring).
+    apply ck_indep. }
+  unfold sum8.
+  (* small files: the 8 bytes after the 24-byte header are not part of the first 24 *)
+  destruct (attr_large attr) eqn:LG.
+  - pose proof (Hsum ckh' ckf' true) as E. cbn [app] in E. rewrite E, Hck. subst hs.
+    set (A := sum_list (f_guid h) + sum_list (zfirstn (32 - 18) (rest ++ data))).
+    replace (sum_list (f_guid h) + (f_state h - A) mod 256 + ckf' + sum_list (zfirstn (32 - 18) (rest ++ data)))
+      with ((f_state h - A) mod 256 + (A + ckf')) by (unfold A; ring).
+    apply ck_valid.
+  - (* 24-byte header followed by data: the first 24 bytes are the header *)
+    assert (H24 : forall X Y, zfirstn hs (file_header_bytes (f_guid h) ckh' ckf' (f_type h) attr (write3 ext) (f_state h) ext false ++ X)
+                       = zfirstn hs (file_header_bytes (f_guid h) ckh' ckf' (f_type h) attr (write3 ext) (f_state h) ext false ++ Y)).
+    { intros. unfold zfirstn. rewrite !firstn_app.
+      assert (L : length (file_header_bytes (f_guid h) ckh' ckf' (f_type h) attr (write3 ext) (f_state h) ext false) = 24%nat).
+      { unfold file_header_bytes. rewrite !app_length, !le_enc_length. unfold zlen in Hl. cbn [length]. lia. }
+      rewrite L. subst hs. replace (Z.to_nat 24 - 24)%nat with 0%nat by lia. reflexivity. }
+    rewrite (H24 data (le_enc 8 ext ++ data)).
+    pose proof (Hsum ckh' ckf' false) as E. cbn iota in E. rewrite E, Hck.
+    set (A := sum_list (f_guid h) + sum_list (zfirstn (hs - 18) (rest ++ data))).
+    replace (sum_list (f_guid h) + (f_state h - A) mod 256 + ckf' + sum_list (zfirstn (hs - 18) (rest ++ data)))
+      with ((f_state h - A) mod 256 + (A + ckf')) by (unfold A; ring).
+    apply ck_valid.
+Qed.
+
+
+Lemma gen_small h body : s_gd h = None -> zlen body + 4 < 16777215 ->
+  gen_sec_header h body =
+  (mkSec (4 + zlen body) (s_type h) (4 + zlen body) 4 None (s_name h) (s_build h) (s_version h)
+         (s_depex h) (s_order h),
+   small_section (s_type h) body).
+Proof.
+  intros G L. unfold gen_sec_header, small_section. rewrite G.
+  pose proof (zlen_nonneg body) as Hn.
+  replace ((zlen body + (4 + 0)) mod U32) with (4 + zlen body).
+  2:{ rewrite Z.mod_small; [ring|]. change U32 with 4294967296. lia. }
+  replace (16777215 <=? 4 + zlen body) with false by lia.
+  cbn [gd_guid]. replace (16777215 <=? 4 + zlen body) with false by lia.
+  unfold write3. replace (16777215 <=? 4 + zlen body) with false by lia.
+  f_equal; try (rewrite <- !app_assoc; cbn [app]; reflexivity).
+Qed.
+
+Section Edits.
+Variable enc : Z -> bytes -> option bytes.
+Variable s2u : bytes -> bytes.
+Notation asm := (asm enc s2u).
+Notation asm_elems := (asm_elems enc s2u).
+
+Definition small_hdr (h : sechdr) (body : bytes) : sechdr :=
+  mkSec (4 + zlen body) (s_type h) (4 + zlen body) 4 None (s_name h) (s_build h) (s_version h)
+        (s_depex h) (s_order h).
+
+Lemma asm_small_leaf h buf st body : s_gd h = None -> zlen body + 4 < 16777215 ->
+  sec_leaf_body s2u h = Ok (Some body) ->
+  asm (NSec h buf []) st = Ok (NSec (small_hdr h body) (small_section (s_type h) body) [], st).
+Proof.
+  intros G L B. rewrite asm_sec. cbn [Ffs.asm_elems bind]. destruct st as [pol ffs3].
+  rewrite B. cbn [bind]. rewrite (gen_small h body G L). cbn [s_ext].
+  replace (16777215 <? 4 + zlen body) with false by lia. rewrite orb_false_r. reflexivity.
+Qed.
+
+(* UI name: the reassembled section is header + UCS-2 of the new name, whatever the old buffer was *)
+Theorem edit_ui h buf st nm : s_type h = 21 -> s_gd h = None -> zlen (s2u nm) + 4 < 16777215 ->
+  asm (NSec (with_name h nm) buf []) st =
+  Ok (NSec (small_hdr (with_name h nm) (s2u nm)) (small_section 21 (s2u nm)) [], st).
+Proof.
+  intros T G L. rewrite <- T.
+  change (s_type h) with (s_type (with_name h nm)).
+  apply asm_small_leaf; auto.
+  unfold sec_leaf_body. cbn [with_name s_type s_name]. rewrite T. reflexivity.
+Qed.
+
+Theorem edit_version h buf st v : s_type h = 20 -> s_gd h = None ->
+  zlen (le_enc 2 (s_build h) ++ s2u v) + 4 < 16777215 ->
+  asm (NSec (with_version h v) buf []) st =
+  Ok (NSec (small_hdr (with_version h v) (le_enc 2 (s_build h) ++ s2u v))
+           (small_section 20 (le_enc 2 (s_build h) ++ s2u v)) [], st).
+Proof.
+  intros T G L. rewrite <- T.
+  change (s_type h) with (s_type (with_version h v)).
+  apply asm_small_leaf; auto.
+  unfold sec_leaf_body. cbn [with_version s_type s_version s_build]. rewrite T. reflexivity.
+Qed.
+
+Theorem edit_depex h buf st d : (s_type h = 19 \/ s_type h = 27 \/ s_type h = 28) -> s_gd h = None ->
+  match emit_depex d with
+  | Ok body => zlen body + 4 < 16777215 ->
+      asm (NSec (with_depex h d) buf []) st =
+      Ok (NSec (small_hdr (with_depex h d) body) (small_section (s_type h) body) [], st)
+  | _ => asm (NSec (with_depex h d) buf []) st = Err E_DEPEX
+  end.
+Proof.
+  intros T G.
+  assert (B : sec_leaf_body s2u (with_depex h d) = do b <- emit_depex d; Ok (Some b)).
+  { unfold sec_leaf_body. cbn [with_depex s_type s_depex].
+    destruct T as [T|[T|T]]; rewrite T; reflexivity. }
+  destruct (emit_depex d) as [body|e| |] eqn:E.
+  - intros L. change (s_type h) with (s_type (with_depex h d)). apply asm_small_leaf; auto.
+  - rewrite asm_sec. cbn [Ffs.asm_elems bind]. destruct st. rewrite B. cbn [bind].
+    (* emit_depex only fails with E_DEPEX *)
+    assert (e = E_DEPEX); [|subst; reflexivity].
+    clear -E. revert e E. induction d as [|[op g] r IH]; intros e E; cbn in E; [discriminate|].
+    destruct (emit_depex r) as [rest|e'| |]; cbn [bind] in E.
+    + destruct (op <=? 2), g; inversion E; reflexivity.
+    + inversion E; subst. apply IH; reflexivity.
+    + discriminate.
+    + discriminate.
+  - exfalso. clear -E. induction d as [|[op g] r IH]; cbn in E; [discriminate|].
+    destruct (emit_depex r); cbn [bind] in E; try discriminate; auto.
+    destruct (op <=? 2), g; discriminate.
+  - exfalso. clear -E. induction d as [|[op g] r IH]; cbn in E; [discriminate|].
+    destruct (emit_depex r); cbn [bind] in E; try discriminate; auto.
+    destruct (op <=? 2), g; discriminate.
+Qed.
+
+(* the assembler goes through a child list from left to right *)
+Lemma asm_elems_app a : forall b st, asm_elems (a ++ b) st =
+  do ra <- asm_elems a st; let '(a', s1) := ra in
+  do rb <- asm_elems b s1; let '(b', s2) := rb in Ok (a' ++ b', s2).
+Proof.
+  induction a as [|x a IH]; intros b st.
+  - cbn [app Ffs.asm_elems bind]. destruct (asm_elems b st) as [[b' s2]| | |]; reflexivity.
+  - cbn [app]. rewrite !asm_elems_cons.
+    destruct (asm x st) as [[x' s1]| | |]; cbn [bind]; try reflexivity.
+    rewrite IH. destruct (asm_elems a s1) as [[a' s2]| | |]; cbn [bind]; try reflexivity.
+    destruct (asm_elems b s2) as [[b' s3]| | |]; cbn [bind]; reflexivity.
+Qed.
+
+Lemma asm_file_rebuilt h buf kids st kids' st' : f_nvar h = None -> kids <> [] ->
+  asm_elems kids st = Ok (kids', st') -> asm (NFile h buf kids) st = Ok (rebuilt_file h kids' st').
+Proof.
+  intros N K E. rewrite asm_file, E. cbn [bind]. destruct st' as [pol ffs3]. rewrite N.
+  pose proof (asm_elems_length enc s2u _ _ _ _ E) as L.
+  destruct kids' as [|x r]; [destruct kids; [contradiction K; reflexivity|discriminate]|].
+  unfold rebuilt_file. cbn [fst snd].
+  destruct (set_size (f_attr h) (24 + zlen (join4 [] (map node_buf (x :: r)))) true) as [ext attr].
+  destruct (checksum_and_assemble h ext attr (join4 [] (map node_buf (x :: r)))) as [h' nb]. reflexivity.
+Qed.
+
+(* editing one section of a file: the siblings are assembled to the same bytes, the file is rebuilt
+   around the new section bytes with size and checksums recomputed *)
+Theorem edit_section_in_file h buf pre sec sec' post st pre' s1 x y s2 post' s3 :
+  f_nvar h = None ->
+  asm_elems pre st = Ok (pre', s1) -> asm sec s1 = Ok (x, s2) -> asm sec' s1 = Ok (y, s2) ->
+  asm_elems post s2 = Ok (post', s3) ->
+  asm (NFile h buf (pre ++ sec :: post)) st = Ok (rebuilt_file h (pre' ++ x :: post') s3) /\
+  asm (NFile h buf (pre ++ sec' :: post)) st = Ok (rebuilt_file h (pre' ++ y :: post') s3).
+Proof.
+  intros N Epre Ex Ey Epost.
+  split; apply asm_file_rebuilt; auto; try (destruct pre; discriminate);
+    rewrite asm_elems_app, Epre; cbn [bind]; rewrite asm_elems_cons.
+  - rewrite Ex. cbn [bind]. rewrite Epost. reflexivity.
+  - rewrite Ey. cbn [bind]. rewrite Epost. reflexivity.
+Qed.
+
+(* the GUID of a file that is rebuilt from its sections *)
+Theorem edit_guid_in_file h buf kids st g' kids' st' : f_nvar h = None -> kids <> [] ->
+  asm_elems kids st = Ok (kids', st') ->
+  asm (NFile h buf kids) st = Ok (rebuilt_file h kids' st') /\
+  asm (NFile (with_guid h g') buf kids) st = Ok (rebuilt_file (with_guid h g') kids' st').
+Proof. intros N K E. split; apply asm_file_rebuilt; auto. Qed.
+
+End Edits.
+
+
+(* ---------- the parser establishes the hypotheses ---------- *)
+
+Definition good (n : node) : Prop := wf_treeb n = true /\ paths_okb n = true.
+
+Lemma NoDup_nodupb l : NoDup l -> nodupb l = true.
+Proof.
+  induction 1 as [|x l Hx Hl IH]; cbn; [reflexivity|]. rewrite IH, andb_true_r.
+  apply negb_true_iff. destruct (existsb (pc_eqb x) l) eqn:E; [|reflexivity].
+  apply existsb_exists in E. destruct E as (y & Hy & E). apply pc_eqb_eq in E. subst. contradiction.
+Qed.
+
+Lemma good_list_wf l : Forall good l -> wf_treeb_list l = true.
+Proof. induction 1 as [|x l [H _] _ IH]; cbn; [reflexivity|]. rewrite H, IH. reflexivity. Qed.
+Lemma good_list_paths l : Forall good l -> paths_okb_list l = true.
+Proof. induction 1 as [|x l [_ H] _ IH]; cbn; [reflexivity|]. rewrite H, IH. reflexivity. Qed.
+
+(* sections numbered i, i+1, ... *)
+Fixpoint ordered_from (i : Z) (l : list node) : Prop :=
+  match l with
+  | [] => True
+  | x :: r => key x = [C_dec i] /\ ordered_from (i + 1) r
+  end.
+
+Lemma ordered_keys_ge : forall l i k, ordered_from i l -> In k (keys l) -> exists j, k = C_dec j /\ i <= j.
+Proof.
+  induction l as [|x l IH]; intros i k H Hin; [contradiction|].
+  destruct H as [Hx Hr]. rewrite keys_cons, Hx in Hin. cbn in Hin. destruct Hin as [E|Hin].
+  - exists i. split; [auto|lia].
+  - destruct (IH (i + 1) k Hr Hin) as (j & E & L). exists j. split; [assumption|lia].
+Qed.
+
+Lemma ordered_nodup : forall l i, ordered_from i l -> NoDup (keys l).
+Proof.
+  induction l as [|x l IH]; intros i H; [constructor|].
+  destruct H as [Hx Hr]. rewrite keys_cons, Hx. cbn. constructor; [|eapply IH; eauto].
+  intros Hin. destruct (ordered_keys_ge l (i + 1) _ Hr Hin) as (j & E & L). inversion E. lia.
+Qed.
+
+Ltac brk H :=
+  match type of H with
+  | (if ?c then _ else _) = Ok _ => destruct c eqn:?; try discriminate H
+  | bind ?x _ = Ok _ => destruct x as [?| | |] eqn:?; cbn [bind] in H; try discriminate H
+  | (let '(a, b) := ?x in _) = Ok _ => destruct x as [? ?] eqn:?
+  | match ?x with _ => _ end = Ok _ => destruct x eqn:?; try discriminate H
+  end.
+
+Section Parse.
+Variable dec : Z -> bytes -> option bytes.
+Variable u2s : bytes -> bytes.
+Variable nvar : bytes -> option bytes.
+Hypothesis dec_ok : forall k p e, dec k p = Some e -> bytes_ok e = true.
+
+Definition Psec (f : Z -> bytes -> Z -> outcome (node * Z)) : Prop :=
+  forall pol buf order n pol', bytes_ok buf = true -> f pol buf order = Ok (n, pol') ->
+    good n /\ key n = [C_dec order].
+Definition Pfile (f : Z -> bytes -> outcome (option node * Z)) : Prop :=
+  forall pol buf n pol', bytes_ok buf = true -> f pol buf = Ok (Some n, pol') -> good n /\ key n = [].
+Definition Pfv (f : Z -> bytes -> Z -> bool -> outcome (node * Z)) : Prop :=
+  forall pol data fvoff rs n pol', bytes_ok data = true -> f pol data fvoff rs = Ok (n, pol') ->
+    good n /\ exists h b k, n = NVol h b k /\ v_fvoffset h = fvoff /\ 64 <= v_length h.
+
+Lemma bytes_ok_zskipn n l : bytes_ok l = true -> bytes_ok (zskipn n l) = true.
+Proof. apply bytes_ok_skipn. Qed.
+
+Lemma sections_loop_inv rec_section : Psec rec_section -> forall n b pol off i l pol',
+  bytes_ok b = true -> sections_loop rec_section n b pol off i = Ok (l, pol') ->
+  Forall good l /\ ordered_from i l.
+Proof.
+  intros HP. induction n as [|n IH]; intros b pol off i l pol' Hb H; [discriminate|].
+  cbn [sections_loop] in H. repeat brk H.
+  - inversion H; subst.
+    match goal with E : rec_section _ _ _ = Ok _ |- _ => destruct (HP _ _ _ _ _ (bytes_ok_zskipn _ _ Hb) E) as [G K] end.
+    match goal with E : sections_loop _ _ _ _ _ _ = Ok _ |- _ => destruct (IH _ _ _ _ _ _ Hb E) as [G' O'] end.
+    split; [constructor; assumption|]. cbn. auto.
+  - inversion H; subst. split; [constructor|exact I].
+Qed.
+
+Lemma good_sec_leaf h b : good (NSec h b []).
+Proof. split; reflexivity. Qed.
+
+Lemma sections_loop_nil rec_section n pol i : forall l pol',
+  sections_loop rec_section n [] pol 0 i = Ok (l, pol') -> l = [].
+Proof. destruct n; cbn; intros l pol' H; [discriminate|]. inversion H; reflexivity. Qed.
+
+Lemma good_sec_kids h b l : Forall good l -> ordered_from 0 l ->
+  (l <> [] -> s_type h = 2 -> exists g, s_gd h = Some g /\ Z.land (gd_attrs g) 1 <> 0) ->
+  good (NSec h b l).
+Proof.
+  intros G O A. split.
+  - rewrite wf_sec, (good_list_wf l G), andb_true_r. destruct l as [|x r]; [reflexivity|].
+    destruct (s_type h =? 2) eqn:T; [|reflexivity].
+    destruct (A ltac:(discriminate) ltac:(lia)) as (g & -> & Hg). lia.
+  - rewrite paths_ok_sec, (good_list_paths l G), andb_true_r. apply NoDup_nodupb. eapply ordered_nodup; eauto.
+Qed.
+
+Lemma section_body_inv rec_section rec_fv : Psec rec_section -> Pfv rec_fv ->
+  Psec (section_body dec u2s rec_section rec_fv).
+Proof.
+  intros HS HV pol buf order n pol' Hb H. unfold section_body in H.
+  assert (Hsub : forall e, bytes_ok (sub 0 e buf) = true) by (intros; apply bytes_ok_sub; assumption).
+  repeat brk H; inversion H; subst; clear H;
+    try (split; [apply good_sec_leaf|reflexivity]).
+  (* what is left: GUID-defined sections (children from the decoded payload) and volume images *)
+  - split; [|reflexivity].
+    match goal with E : sections_loop _ _ ?enc _ _ _ = Ok (?l, _) |- _ =>
+      assert (Henc : bytes_ok enc = true \/ enc = []); [|rename E into EL] end.
+    { match goal with E : _ = Ok (l, z1) |- _ => rename E into EK end.
+      destruct (_ =? 0) in EK; [inversion EK; auto|].
+      destruct (slice _ _ _) in EK; [|discriminate].
+      destruct (dec _ _) eqn:D in EK; inversion EK; subst; [left; eapply dec_ok; eauto|auto]. }
+    destruct Henc as [Henc|Henc].
+    + destruct (sections_loop_inv _ HS _ _ _ _ _ _ _ Henc EL) as [G O].
+      apply good_sec_kids; auto.
+      intros Hne _. cbn [s_gd gd_attrs]. eexists. split; [reflexivity|].
+      (* children exist, so the payload was decoded, so the attribute is set *)
+      match goal with E : _ = Ok (l, z1) |- _ => rename E into EK end.
+      destruct (negb (Z.land (rd (z + 18) 2 (sub 0 z0 buf)) 1 =? 0)) eqn:A;
+        [apply negb_true_iff in A; apply Z.eqb_neq in A; exact A|].
+      exfalso. cbn in EK. inversion EK; subst. apply Hne.
+      eapply sections_loop_nil; eauto.
+    + subst. apply sections_loop_nil in EL. subst. apply good_sec_leaf.
+  - split; [|reflexivity].
+    match goal with E : rec_fv _ _ _ _ = Ok _ |- _ =>
+      destruct (HV _ _ _ _ _ _ (bytes_ok_zskipn _ _ (Hsub _)) E) as [[Gw Gp] (hh & bb & kk & -> & Ho & Hl)] end.
+    split.
+    + rewrite wf_sec. cbn [wf_treeb_list]. rewrite Gw. cbn [s_type sec_default].
+      match goal with Ht : (_ =? 2) = false |- _ => rewrite Ht end. reflexivity.
+    + rewrite paths_ok_sec. cbn [paths_okb_list]. rewrite Gp. reflexivity.
+Qed.
+
+Lemma file_body_inv rec_section : Psec rec_section -> Pfile (file_body nvar rec_section).
+Proof.
+  intros HS pol buf n pol' Hb H. unfold file_body in H.
+  assert (Hsub : forall e, bytes_ok (sub 0 e buf) = true) by (intros; apply bytes_ok_sub; assumption).
+  repeat brk H; inversion H; subst; clear H; (split; [|reflexivity]).
+  all: assert (Hg : zlen (sub 0 16 buf) = 16) by (apply zlen_sub; lia).
+  all: try (split; [rewrite wf_file; cbn [f_guid wf_treeb_list]; rewrite Hg; reflexivity|reflexivity]).
+  all: match goal with E : sections_loop _ _ _ _ _ _ = Ok (?l, _) |- _ =>
+         destruct (sections_loop_inv _ HS _ _ _ _ _ _ _ (Hsub _) E) as [G O] end.
+  all: split; [rewrite wf_file; cbn [f_guid]; rewrite Hg; rewrite (good_list_wf _ G); reflexivity
+              |rewrite paths_ok_file, (good_list_paths _ G), andb_true_r; apply NoDup_nodupb; eapply ordered_nodup; eauto].
+Qed.
+
+Lemma files_loop_inv rec_file : Pfile rec_file -> forall n data length pol off l pol' fs,
+  bytes_ok data = true -> files_loop rec_file n data length pol off = Ok (l, pol', fs) ->
+  Forall good l /\ keys l = [] /\ (l <> [] -> off + 24 <= length).
+Proof.
+  intros HP. induction n as [|n IH]; intros data length pol off l pol' fs Hb H; [discriminate|].
+  cbn [files_loop] in H. repeat brk H; inversion H; subst; clear H.
+  all: try (split; [constructor|split; [reflexivity|intros C; contradiction C; reflexivity]]).
+  match goal with E : rec_file _ _ = Ok (Some ?f, _) |- _ =>
+    destruct (HP _ _ _ _ (bytes_ok_sub _ _ _ Hb) E) as [G K] end.
+  match goal with E : files_loop _ _ _ _ _ _ = Ok _ |- _ => destruct (IH _ _ _ _ _ _ _ Hb E) as (G' & K' & _) end.
+  split; [constructor; assumption|]. split; [rewrite keys_cons, K, K'; reflexivity|]. intros _. lia.
+Qed.
+
+Lemma rd_nonneg off w b : bytes_ok b = true -> 0 <= rd off w b.
+Proof. intros H. unfold rd. apply le_dec_bound. apply bytes_ok_sub. assumption. Qed.
+
+Lemma align8_nonneg x : 0 <= x -> 0 <= align8 x.
+Proof. intros H. unfold align8, align. apply Z.mul_nonneg_nonneg; [|lia]. apply Z.div_pos; lia. Qed.
+
+Lemma fv_body_inv rec_file : Pfile rec_file -> Pfv (fv_body rec_file).
+Proof.
+  intros HF pol data fvoff rs n pol' Hb H. unfold fv_body in H.
+  repeat brk H; inversion H; subst; clear H.
+  - (* not an FFS volume *)
+    split; [split; reflexivity|]. do 3 eexists. split; [reflexivity|]. cbn [v_fvoffset v_length]. split; [reflexivity|lia].
+  - match goal with E : files_loop _ _ _ _ _ _ = Ok _ |- _ =>
+      destruct (files_loop_inv _ HF _ _ _ _ _ _ _ _ Hb E) as (G & K & L) end.
+    split; [|do 3 eexists; split; [reflexivity|]; cbn [v_fvoffset v_length]; split; [reflexivity|lia]].
+    split.
+    + rewrite wf_vol, (good_list_wf _ G), andb_true_r. cbn [v_dataoff v_length].
+      match goal with |- match ?l with [] => true | _ => _ end = true => destruct l as [|x r] eqn:El; [reflexivity|] end.
+      specialize (L ltac:(discriminate)).
+      set (length := rd 32 8 data) in *.
+      assert (Hlen : zlen (sub 0 length data) = length) by (apply zlen_sub; lia).
+      rewrite Hlen.
+      match type of L with ?d + 24 <= _ => assert (0 <= d) end.
+      { apply align8_nonneg. pose proof (rd_nonneg 52 2 data Hb). pose proof (rd_nonneg 48 2 data Hb).
+        pose proof (rd_nonneg (rd 52 2 data + 16) 4 data Hb).
+        match goal with |- 0 <= (if ?c then _ else _) => destruct c end; lia. }
+      lia.
+    + rewrite paths_ok_vol, K, (good_list_paths _ G). reflexivity.
+Qed.
+
+Theorem parse_inv : forall d,
+  Psec (parse_section dec u2s nvar d) /\ Pfile (parse_file dec u2s nvar d) /\ Pfv (parse_fv dec u2s nvar d).
+Proof.
+  induction d as [|d (IS & IF & IV)].
+  - repeat split; intros; discriminate.
+  - split; [|split].
+    + change (parse_section dec u2s nvar (S d)) with
+        (section_body dec u2s (parse_section dec u2s nvar d) (parse_fv dec u2s nvar d)).
+      apply section_body_inv; assumption.
+    + change (parse_file dec u2s nvar (S d)) with (file_body nvar (parse_section dec u2s nvar d)).
+      apply file_body_inv; assumption.
+    + change (parse_fv dec u2s nvar (S d)) with (fv_body (parse_file dec u2s nvar d)).
+      apply fv_body_inv; assumption.
+Qed.
+
+Definition key_off_ge (abs : Z) (k : pc) : Prop :=
+  match k with C_padhex o | C_hex o => abs <= o | _ => False end.
+
+Lemma parse_bios_inv d : forall n pol buf abs l pol',
+  bytes_ok buf = true -> parse_bios dec u2s nvar d n pol buf abs = Ok (l, pol') ->
+  Forall good l /\ Forall (key_off_ge abs) (keys l) /\ NoDup (keys l).
+Proof.
+  destruct (parse_inv d) as (_ & _ & HV).
+  induction n as [|n IH]; intros pol buf abs l pol' Hb H; [discriminate|].
+  cbn [parse_bios] in H. cbv zeta in H. repeat brk H; inversion H; subst; clear H.
+  - destruct (zlen buf =? 0).
+    + split; [constructor|]. split; constructor.
+    + split; [repeat constructor|]. cbn. split; [constructor; [cbn; lia|constructor]|constructor; [intros []|constructor]].
+  - match goal with E : parse_fv _ _ _ _ _ _ _ _ = Ok _ |- _ =>
+      destruct (HV _ _ _ _ _ _ (bytes_ok_zskipn _ _ Hb) E) as [Gv (hh & bb & kk & -> & Ho & Hl)] end.
+    match goal with E : parse_bios _ _ _ _ _ _ _ _ = Ok _ |- _ =>
+      destruct (IH _ _ _ _ _ (bytes_ok_zskipn _ _ Hb) E) as (G & K & N) end.
+    set (offset := find_fv_offset buf) in *.
+    assert (Hoff : 0 <= offset) by lia.
+    assert (Hrest : forall k, In k (keys l0) -> key_off_ge (abs + offset + v_length hh) k).
+    { rewrite Forall_forall in K. exact K. }
+    assert (Hv : ~ In (C_hex (abs + offset)) (keys l0)).
+    { intros Hin. apply Hrest in Hin. cbn in Hin. lia. }
+    destruct (0 <? offset) eqn:Hpos; cbn [app].
+    + split; [constructor; [split; reflexivity|constructor; assumption]|].
+      rewrite !keys_cons. cbn [key app]. rewrite Ho.
+      split.
+      * constructor; [cbn; lia|]. constructor; [cbn; lia|].
+        eapply Forall_impl; [|exact K]. intros k Hk. destruct k; cbn in *; try contradiction; lia.
+      * constructor.
+        -- intros [E|Hin]; [discriminate|]. apply Hrest in Hin. cbn in Hin. lia.
+        -- constructor; assumption.
+    + split; [constructor; assumption|].
+      rewrite keys_cons. cbn [key app]. rewrite Ho.
+      split.
+      * constructor; [cbn; lia|].
+        eapply Forall_impl; [|exact K]. intros k Hk. destruct k; cbn in *; try contradiction; lia.
+      * constructor; assumption.
+Qed.
+
+Theorem parse_region_inv d buf elems pol : bytes_ok buf = true ->
+  parse_region dec u2s nvar d buf = Ok (elems, pol) ->
+  wf_treeb_list elems = true /\ region_paths_ok elems.
+Proof.
+  intros Hb H. unfold parse_region in H.
+  destruct (parse_bios_inv d _ _ _ _ _ _ Hb H) as (G & _ & N).
+  split; [apply good_list_wf; assumption|].
+  split; [apply NoDup_nodupb; assumption|apply good_list_paths; assumption].
+Qed.
+
+End Parse.
+
+
+Section Image.
+Variable dec : Z -> bytes -> option bytes.
+Variable enc : Z -> bytes -> option bytes.
+Variable u2s : bytes -> bytes.
+Variable s2u : bytes -> bytes.
+Variable nvar : bytes -> option bytes.
+Variable mangle3 : Z -> Z.
+Hypothesis dec_ok : forall k p e, dec k p = Some e -> bytes_ok e = true.
+
+Theorem image_paths_nodup d img ps : bytes_ok img = true ->
+  extract_paths dec u2s nvar d img = Ok ps -> NoDup ps.
+Proof.
+  intros Hb H. unfold extract_paths in H.
+  destruct (parse_region dec u2s nvar d img) as [[elems pol]| | |] eqn:P; cbn [bind] in H; try discriminate.
+  destruct (parse_region_inv dec u2s nvar dec_ok d img elems pol Hb P) as [W PO].
+  destruct (extract_region img elems) as [[[js p] f]| | |] eqn:E; cbn [bind] in H; try discriminate.
+  inversion H; subst. eapply extract_paths_nodup; eauto.
+Qed.
+
+Theorem image_dir_save d img : bytes_ok img = true ->
+  dir_save dec enc u2s s2u nvar mangle3 d img = save_twice_image dec enc u2s s2u nvar d img.
+Proof.
+  intros Hb. unfold dir_save, save_twice_image.
+  destruct (parse_region dec u2s nvar d img) as [[elems pol]| | |] eqn:P; cbn [bind]; try reflexivity.
+  destruct (parse_region_inv dec u2s nvar dec_ok d img elems pol Hb P) as [W PO].
+  apply dir_save_tree_eq; assumption.
+Qed.
+
+Theorem image_save_projected d img : bytes_ok img = true ->
+  save_projected dec enc u2s s2u nvar mangle3 d img = save_region dec enc u2s s2u nvar d img.
+Proof.
+  intros Hb. unfold save_projected, save_region.
+  destruct (parse_region dec u2s nvar d img) as [[elems pol]| | |] eqn:P; cbn [bind]; try reflexivity.
+  destruct (parse_region_inv dec u2s nvar dec_ok d img elems pol Hb P) as [W PO].
+  apply out_rel_eq. eapply out_rel_bind; [apply (asm_bios_project enc s2u mangle3 elems (zlen img) (pol, false) W)|].
+  intros [[e1 b1] s1] [[e2 b2] s2] (He & Hbb & Hs); cbn [fst snd] in *; subst. reflexivity.
+Qed.
+
+End Image.
+
+(* ---------- the text form of GUIDs ---------- *)
+
+Lemma unhex1_digit d : 0 <= d < 16 -> unhex1 (digit_uc d) = Some d.
+Proof.
+  intros H. unfold digit_uc, unhex1.
+  destruct (d <? 10) eqn:E.
+  - replace ((48 <=? 48 + d) && (48 + d <=? 57)) with true by lia. f_equal. lia.
+  - replace ((48 <=? 55 + d) && (55 + d <=? 57)) with false by lia.
+    replace ((65 <=? 55 + d) && (55 + d <=? 70)) with true by lia. f_equal. lia.
+Qed.
+
+Lemma digit_not_dash d : 0 <= d < 16 -> negb (digit_uc d =? 45) = true.
+Proof. intros H. unfold digit_uc. destruct (d <? 10); lia. Qed.
+
+Lemma unhex_hex2 b r : 0 <= b < 256 ->
+  unhex (hex2_uc b ++ r) = match unhex r with Some l => Some (b :: l) | None => None end.
+Proof.
+  intros H. unfold hex2_uc. cbn [app unhex].
+  assert (0 <= b / 16 < 16) by (split; [apply Z.div_pos; lia|apply Z.div_lt_upper_bound; lia]).
+  assert (0 <= b mod 16 < 16) by (apply Z.mod_pos_bound; lia).
+  rewrite !unhex1_digit by assumption.
+  destruct (unhex r); [|reflexivity]. f_equal. f_equal.
+  rewrite (Z.div_mod b 16) at 3 by lia. reflexivity.
+Qed.
+
+Lemma filter_hex2 b r : 0 <= b < 256 ->
+  filter (fun c => negb (c =? 45)) (hex2_uc b ++ r) = hex2_uc b ++ filter (fun c => negb (c =? 45)) r.
+Proof.
+  intros H. unfold hex2_uc. cbn [app filter].
+  assert (0 <= b / 16 < 16) by (split; [apply Z.div_pos; lia|apply Z.div_lt_upper_bound; lia]).
+  assert (0 <= b mod 16 < 16) by (apply Z.mod_pos_bound; lia).
+  rewrite !digit_not_dash by assumption. reflexivity.
+Qed.
+
+Lemma filter_dash r :
+  filter (fun c => negb (c =? 45)) (45 :: r) = filter (fun c => negb (c =? 45)) r.
+Proof. reflexivity. Qed.
+
+Theorem guid_text_roundtrip g : zlen g = 16 -> bytes_ok g = true -> guid_parse (guid_string g) = Some g.
+Proof.
+  intros L B.
+  unfold zlen in L.
+  do 16 (destruct g as [|? g]; [cbn [length] in L; lia|]).
+  destruct g; [|cbn [length] in L; lia]. clear L.
+  repeat (rewrite bytes_ok_cons in B; apply andb_true_iff in B; destruct B as [? B]).
+  repeat match goal with H : byte_ok _ = true |- _ => apply byte_ok_iff in H end.
+  unfold guid_parse. rewrite <- (app_nil_r (guid_string _)). unfold guid_string. cbn [nth].
+  rewrite <- !app_assoc.
+  cbn [app].
+  repeat (first [rewrite filter_hex2 by assumption | rewrite filter_dash]).
+  cbn [filter].
+  repeat rewrite unhex_hex2 by assumption.
+  cbn [unhex]. reflexivity.
+Qed.
